@@ -2150,6 +2150,8 @@ class BSP:
                     raise ValueError(f'Too many primitives: {prim_count} in {orig_ind}')
                 if not face.dynamic_shadows:
                     prim_count |= 0x8000
+                if len(face.light_styles) > 4:
+                    raise ValueError(f'Face light styles {face.light_styles!r} exceed the 4 byte field')
 
                 # noinspection PyProtectedMember
                 face_buf.write(self.lump_layout['FACE'].pack(
